@@ -85,9 +85,28 @@ def inject(rng, sid):
     return s
 
 
+def confdirs_seq(rng, sid):
+    """the process-wide drop-in list set several times in a row (longer, shorter, empty lists), with layered reads in between;
+    the list itself stays allocated by design, so this kind is judged by ASan (double free, use after free) and by the
+    comparison with the model, not by the live-byte count"""
+    s = Scenario(sid, {"kind": "confdirs"})
+    s.file(b"/usr/etc/cfg.conf", b"k=1\n")
+    s.file(b"/etc/cfg.conf.d/a.conf", b"k=2\n")
+    s.file(b"/etc/cfg/conf.d/b.conf", b"j=3\n")
+    for _ in range(rng.randint(2, 6)):
+        lst = rng.choice([[], [], [b".d"], [b"/conf.d", b".conf.d"], [b".d", b"/conf.d", b".x"]])
+        s.add("G", "confdirs", *[h(x) for x in lst])
+        if rng.random() < 0.6:
+            s.add("RD", 0, h(b"/usr/etc"), h(b"/etc"), h(b"cfg"), h(b"conf"), h(b"="), h(b"#"))
+            s.add("RAW", 0)
+            s.add("FREE", 0)
+    return s
+
+
 def scenarios(tier, rng):
     n = 1500 if tier == "quick" else 40000
     out = [ops(rng, "a%d" % i) for i in range(n)] + [inject(rng, "i%d" % i) for i in range(n)]
+    out += [confdirs_seq(rng, "d%d" % i) for i in range(n // 10)]
     s = Scenario("freenull", {"kind": "freenull"})
     s.add("MARK"); s.add("FREENULL"); s.add("LEAK")
     out.append(s)
@@ -95,7 +114,7 @@ def scenarios(tier, rng):
 
 
 def oracle(s, lines):
-    if "kind" not in s.meta:
+    if "kind" not in s.meta or s.meta["kind"] == "confdirs":
         return None
     leak = [l for l in lines if l.startswith("leak ")]
     if not leak:
